@@ -59,6 +59,13 @@ type Script struct {
 	// CtxAPI: streaming handlers set headers and trailers through the context-based API
 	// (grpc.SetHeader / grpc.SendHeader / grpc.SetTrailer with the stream's context) instead of the stream's methods
 	CtxAPI bool `json:",omitempty"`
+	// OptReuse: the variables given to grpc.Header / grpc.Trailer hold metadata of an earlier call already,
+	// and the first header variable is passed twice; each ends up holding this call's metadata, once
+	OptReuse bool `json:",omitempty"`
+	// RegAllBidi: the service is registered with a description that marks every stream method as
+	// {client,server}-streaming (what generic proxies and hand-written registrations do); callers keep using the
+	// method's real shape, and it is the caller's descriptor that says whether one response is expected
+	RegAllBidi bool `json:",omitempty"`
 }
 
 // chunkedWriter drops Content-Length and flushes the header, so the reply goes out chunked.
@@ -318,7 +325,13 @@ func runScript(s *Script, name string, copts carrierOpts) *Obs {
 	if s.Chunked && isHTTP(name) && copts.WrapHandler == nil {
 		copts.WrapHandler = chunkedMiddleware
 	}
-	car := newCarrier(name, newServiceDesc(), svc, copts)
+	desc := newServiceDesc()
+	if s.RegAllBidi {
+		for i := range desc.Streams {
+			desc.Streams[i].ClientStreams, desc.Streams[i].ServerStreams = true, true
+		}
+	}
+	car := newCarrier(name, desc, svc, copts)
 	defer car.Close()
 	runScriptOn(s, car.Conn, o, &mu)
 	return o
@@ -368,11 +381,35 @@ func runScriptOn(s *Script, conn grpc.ClientConnInterface, o *Obs, mu *sync.Mute
 	o.HdrOpts = make([]metadata.MD, s.NHdrOpts)
 	o.TlrOpts = make([]metadata.MD, s.NTlrOpts)
 	var opts []grpc.CallOption
+	// OptReuse: the variables already hold a value for a key this call is going to set (left there by an
+	// earlier call): afterwards they hold this call's values for it, not both
+	staleFor := func(ops ...string) metadata.MD {
+		for _, op := range s.HOps {
+			for _, want := range ops {
+				if op.Op == want && len(op.MD) > 0 {
+					return metadata.Pairs(op.MD[0].K, "stale-from-an-earlier-call")
+				}
+			}
+		}
+		return nil
+	}
 	for i := range o.HdrOpts {
+		if s.OptReuse {
+			o.HdrOpts[i] = staleFor("sethdr", "sendhdr")
+		}
 		opts = append(opts, grpc.Header(&o.HdrOpts[i]))
 	}
 	for i := range o.TlrOpts {
+		if s.OptReuse {
+			o.TlrOpts[i] = staleFor("settlr")
+		}
 		opts = append(opts, grpc.Trailer(&o.TlrOpts[i]))
+	}
+	if s.OptReuse && len(o.HdrOpts) > 0 {
+		opts = append(opts, grpc.Header(&o.HdrOpts[0])) // and the same variable given twice
+	}
+	if s.OptReuse && len(o.TlrOpts) > 0 {
+		opts = append(opts, grpc.Trailer(&o.TlrOpts[0]))
 	}
 	reqs := make([]*pb.Message, len(s.Reqs))
 	for i := range s.Reqs {
